@@ -203,6 +203,29 @@ Section P.
       + reflexivity.
   Qed.
 
+  (* printed trees contain no comment token *)
+  Lemma drop_comments_app a b : drop_comments (a ++ b) = drop_comments a ++ drop_comments b.
+  Proof. unfold drop_comments. apply filter_app. Qed.
+
+  Lemma ttoks_nocomment : forall t, drop_comments (ttoks t) = ttoks t.
+  Proof.
+    assert (Hm : forall (A : Type) (g : A -> tok) l, (forall x, is_comment (g x) = false) -> drop_comments (map g l) = map g l).
+    { intros A g l Hg. induction l as [|x l IH]; [reflexivity|]. cbn [map]. unfold drop_comments in *. cbn [filter]. rewrite Hg. cbn [negb]. rewrite IH. reflexivity. }
+    induction t as [v|n k|name fast cs IH|a b d IHa IHb IHd] using tree_ind2.
+    - destruct v as [z|[]|s|li|ls|si|ss'| | |o]; try reflexivity; cbn [ttoks vtoks].
+      + change (KLParen :: map (fun z => KInt (show z)) li ++ [KRParen]) with ([KLParen] ++ map (fun z => KInt (show z)) li ++ [KRParen]).
+        rewrite !drop_comments_app, Hm by reflexivity. reflexivity.
+      + change (KLParen :: map KStr ls ++ [KRParen]) with ([KLParen] ++ map KStr ls ++ [KRParen]).
+        rewrite !drop_comments_app, Hm by reflexivity. reflexivity.
+    - reflexivity.
+    - cbn [ttoks]. change (KLParen :: KIdent name :: flat_map ttoks cs ++ [KRParen]) with ([KLParen; KIdent name] ++ flat_map ttoks cs ++ [KRParen]).
+      rewrite !drop_comments_app. f_equal. f_equal.
+      induction IH as [|c0 cs' Hc _ IHl]; [reflexivity|]. cbn [flat_map]. rewrite drop_comments_app, Hc, IHl. reflexivity.
+    - cbn [ttoks]. change (KLParen :: KIdent (ss keyword_if) :: ttoks a ++ ttoks b ++ ttoks d ++ [KRParen])
+        with ([KLParen; KIdent (ss keyword_if)] ++ ttoks a ++ ttoks b ++ ttoks d ++ [KRParen]).
+      rewrite !drop_comments_app, IHa, IHb, IHd. reflexivity.
+  Qed.
+
   Theorem parse_prefix_correct t : twf t -> parse_prefix c false (ttoks t) = Some (strip t).
   Proof.
     intros Hw. unfold parse_prefix. pose proof (parses_all t Hw (S (length (ttoks t))) [] ltac:(lia)) as H.
